@@ -38,6 +38,9 @@ def aff_of_term(term: str) -> Optional[Affine]:
             return a + b if isinstance(e.op, ast.Add) else a - b
         if isinstance(e, ast.Call) and isinstance(e.func, ast.Name) and e.func.id == 'len' and len(e.args) == 1:
             return Affine.sym(('len', ast.unparse(e.args[0])))
+        if isinstance(e, ast.BoolOp) and isinstance(e.op, ast.Or) and isinstance(e.values[0], ast.Name):
+            # ``limit or DEFAULT``: equals the limit whenever it is non-zero (the zero case is C10.X4)
+            return Affine.sym(('var', e.values[0].id))
         if isinstance(e, ast.UnaryOp) and isinstance(e.op, ast.USub):
             a = go(e.operand)
             return a.scale(-1) if a is not None else None
